@@ -628,6 +628,10 @@ class Prover:
         tl = self._typed_len(x)
         if tl is not None:
             return tl
+        # a chunk yielded by chunks_exact(c) has exactly c elements
+        ck = self._chunk_len(x, bb)
+        if ck is not None:
+            return ck
         if util.is_call(x):
             n = x[1]
             a = x[2]
@@ -670,6 +674,23 @@ class Prover:
                 n = typenum_value(t2.s)
                 if n is not None:
                     return (n, n)
+        return None
+
+    def _chunk_len(self, x, bb):
+        for lp in util.for_loops(self.ctx, self.se):
+            if lp["init_call"] is None:
+                continue
+            item = strip(lp["elem"])
+            src = strip(lp["init_call"][2][0])
+            comp = None
+            if x == item:
+                comp = src
+            elif x[0] == "field" and x[1] == item and x[2] == 1 and util.is_call(src) and src[1].endswith("::enumerate"):
+                comp = strip(src[2][0])
+            if comp is not None and util.is_call(comp) and comp[1].split("::")[-1] in ("chunks_exact",):
+                c = self.rng(comp[2][1], bb)
+                if c[0] == c[1]:
+                    return c
         return None
 
     def closure_item_range(self, t):
@@ -784,6 +805,12 @@ class Prover:
                 return (0, min(l1[1], l2[1]))
             if n == "cycle":
                 return (0, INF)
+            if n in ("chunks_exact", "chunks"):
+                l = self.len_range(a[0], bb, d + 1)
+                c = self.rng(a[1], bb)
+                if c[0] >= 1 and l[1] != INF:
+                    return (0, l[1] // c[0] if n == "chunks_exact" else -(-l[1] // c[0]))
+                return (0, l[1])
             if n == "take":
                 s = self.rng(a[1], bb)
                 l = self.iter_len(a[0], bb, d + 1)
@@ -890,7 +917,7 @@ def _is_iter_term(t):
     t = strip(t)
     if t[0] == "agg" and t[2] == "std::ops::Range":
         return True
-    return util.is_call(t) and t[1].split("::")[-1] in ("iter", "iter_mut", "enumerate", "step_by", "skip", "zip", "cycle", "chars", "take", "into_iter", "rev", "take_while", "filter", "map", "copied", "cloned", "skip_while")
+    return util.is_call(t) and t[1].split("::")[-1] in ("iter", "iter_mut", "enumerate", "step_by", "skip", "zip", "cycle", "chars", "take", "into_iter", "rev", "take_while", "filter", "map", "copied", "cloned", "skip_while", "chunks_exact", "chunks")
 
 
 def _monotone_up(vv, phi):
